@@ -422,3 +422,54 @@ def image_molecules_driver(ctx, case=None):
 
 
 contract("C11", PXI, "image_molecules", replay="image", covers=["returned"])(image_molecules_driver)
+
+
+def image_molecules_lists(ctx, case):
+    """Trajectory.image_molecules: the molecule lists handed to the kernel.  Real Topology (3 residues in 2 chains, 5 atoms) with the bond graph
+    {0-1}, {2-3}, {4}: atoms 2 and 3 are bonded ACROSS a residue and chain boundary.  With explicit anchors [{0,1}] and other_molecules left at its
+    default, the kernel must receive the anchors as given and, as the units to be wrapped, exactly the bonded molecules that are not anchors --
+    {2,3} as ONE unit and {4} -- so that non-anchor molecules are placed as wholes (explicit lists are passed on unchanged)."""
+    explicit = case == "explicit-lists"
+    mod_top, elems = c04.setup(ctx)
+    calls = []
+    c03.install(ctx)
+    im = ctx.interp.import_models
+
+    def image(xyz, box, anchors, others, bonds):
+        calls.append(dict(xyz=xyz, box=box, anchors=anchors, others=others, bonds=bonds))
+        c03.mutate(xyz, "imaged")
+    im["mdtraj.geometry"] = Namespace("geometry", _geometry=Namespace("_geometry", image_molecules=image), distance=Namespace("distance"))
+
+    class NumpyF(NumpyH):
+        def np_fromiter(self, interp, it, dtype=None, **k):
+            return _np.array(sorted(int(v) for v in interp.iterate(it)), dtype=_np.int32)
+    im["numpy"] = NumpyF()
+    top, _view, _bonds, atoms = c04.build(ctx, mod_top, elems, "t", symbolic=False)
+    # replace the bond graph: 0-1 | 2-3 (across residues and chains) | 4
+    top.fields["_bonds"] = []
+    for i, j in ((0, 1), (2, 3)):
+        ctx.interp.call_method(top, "add_bond", [atoms[i], atoms[j]], {})
+    F = ctx.int("F")
+    ctx.assume(F >= 1)
+    t, mod = TM.make_traj(ctx, F, 5)
+    t.fields["_topology"] = top
+    anchors = [{atoms[0], atoms[1]}]
+    kw = dict(anchor_molecules=anchors)
+    if explicit:
+        kw["other_molecules"] = [{atoms[4]}]
+    out = ctx.call_method(t, "image_molecules", inplace=True, **kw)
+    ctx.ensure("no-exception", not out.raised)
+    if out.raised or len(calls) != 1:
+        ctx.ensure("kernel-called-once", len(calls) == 1)
+        return
+    ctx.cover("called")
+    got_a = [sorted(int(v) for v in a) for a in calls[0]["anchors"]]
+    got_o = sorted(sorted(int(v) for v in a) for a in calls[0]["others"])
+    ctx.ensure("anchors-are-the-caller's-anchor-molecules", got_a == [[0, 1]])
+    if explicit:
+        ctx.ensure("explicit-other-molecules-are-passed-on-unchanged", got_o == [[4]])
+    else:
+        ctx.ensure("default-other-molecules=the-bonded-molecules-that-are-not-anchors(each-as-ONE-unit,also-across-residues)", got_o == [[2, 3], [4]])
+
+
+contract("C11", "mdtraj/core/trajectory.py", "Trajectory.image_molecules(molecule-lists)", cases=["default-others", "explicit-lists"], replay="image", covers=["called"])(image_molecules_lists)
